@@ -5,7 +5,7 @@ from fractions import Fraction
 import numpy as np
 from hypothesis import strategies as st
 
-from ..common import fail, call_lib, LibError, finite, Stats, write_replay, fingerprint
+from ..common import fail, call_lib, LibError, finite, Stats, write_replay, fingerprint, fuzz_cells
 from ..ref.simplex_exact import exact_min_norm, in_hull_exact
 from ..ref.refdist import closest_on_simplex
 
@@ -32,6 +32,8 @@ def cells(tier):
     out = [{"name": "lattice-%02d" % i, "direct": True, "shard": i, "cost": 1e6} for i in range(NSHARDS)]
     for v in ("lattice2", "scaled", "degenerate", "duplicates", "near-duplicates", "needle"):
         out.append({"name": "hyp-" + v, "variant": v, "n": N_HYP[tier]})
+    if tier == "thorough":
+        out += fuzz_cells("simplex", 4, 150000)
     return out
 
 
